@@ -8,14 +8,17 @@ META = dict(
 )
 
 def harnesses(tier):
-    hs = [dict(name='c18_proto', src='c18/proto.c', defs=dict(NOBJ=4, MMD6_VERIF_POOL_OBJECTS=4),
-               units=['repo:object_pool.c', 'repo:stack.c'], unwind=6, timeout=600, mem_gb=6,
-               bounds='4-object slabs, <= 2 live slabs, any use count 0..999, any fill level',
-               desc='one protocol step (init / token_new / drain / free) from an arbitrary valid protocol state')]
+    hs = []
+    OPS = ['init', 'token_new', 'drain', 'free']
+    for i, op in enumerate(OPS):
+        hs.append(dict(name='c18_step_' + op, src='c18/proto.c', defs=dict(OP=i, NOBJ=4, MMD6_VERIF_POOL_OBJECTS=4),
+                       units=['repo:object_pool.c', 'repo:stack.c'], unwind=6, timeout=900, mem_gb=8,
+                       bounds='4-object slabs, <= 2 live slabs, any use count 0..999, any fill level',
+                       desc='protocol step %s from an arbitrary valid protocol state' % op))
     if tier == 'thorough':
-        hs.append(dict(name='c18_proto_realslab', src='c18/proto.c', defs=dict(NOBJ=1024),
+        hs.append(dict(name='c18_step_token_new_realslab', src='c18/proto.c', defs=dict(OP=1, NOBJ=1024),
                        units=['repo:object_pool.c', 'repo:stack.c'], unwind=6, timeout=3000, mem_gb=14, backend='cadical',
-                       bounds='real 1024-object slabs', desc='same step at the real slab size'))
+                       bounds='real 1024-object slabs', desc='allocation step at the real slab size'))
     return hs
 
 CLAIM = dict(
